@@ -188,3 +188,60 @@ u = Unit("compress.scalar_map", CP, "scalar_map", [("hades_optimization", sym("h
          lambda res, args, ctx: {"effects": list(ctx.log), "result": res})
 u.extra_contracts = SM
 UNITS.append(u)
+
+
+# ------------------------------------------------------------------ from_composer (the ENCODER): index assignment of selector values
+def n_ins(it, which):
+    return sum(1 for e_ in it.ctx.log if e_ and e_[0] == "map.or_insert" and e_[1] == which)
+
+
+def fc_len(it, recv, a):
+    c = canon(recv)
+    if c in ("map:scalars", "map:polynomials"):
+        w = c[4:]
+        return Sym(f"len({w})#{n_ins(it, w)}")       # the table's length AFTER the insertions made so far in this iteration
+    return NotImplemented
+
+
+def fc_entry(it, recv, a):
+    c = canon(recv)
+    if c in ("map:scalars", "map:polynomials"):
+        return VOpaque("entry", [VOpaque(c), a[0]])
+    return NotImplemented
+
+
+def fc_or_insert(it, recv, a):
+    if isinstance(recv, VOpaque) and recv.name == "entry":
+        w = canon(recv.args[0])[4:]
+        it.ctx.event("map.or_insert", w, canon(recv.args[1]), canon(a[0]))
+        return VOpaque("index_of", [VOpaque(w), recv.args[1]])
+    return NotImplemented
+
+
+FC = {"scalar_map": lambda it, recv, a: VOpaque("map:scalars"), "HashMap::new": lambda it, recv, a: VOpaque("map:polynomials"),
+      ".len": fc_len, ".entry": fc_entry, ".or_insert": fc_or_insert, ".index": lambda it, recv, a: VOpaque("index", [recv]),
+      ".split_off": lambda it, recv, a: VOpaque("split_off", [recv, a[0]]), ".sort": lambda it, recv, a: UNIT,
+      "CompressedPolynomial::default": lambda it, recv, a: VOpaque("CompressedPolynomial::default")}
+SEL_ORDER = ["q_m", "q_l", "q_r", "q_o", "q_f", "q_c", "q_arith", "q_range", "q_logic", "q_fixed_group_add", "q_variable_group_add"]
+
+
+def c_from_composer(it, recv, a):
+    """per row, in this order q_m, q_l, q_r, q_o, q_f, q_c, q_arith, q_range, q_logic, q_fixed, q_var: the selector VALUE gets the next
+    free index of the scalar table -- the table's length at THAT moment -- unless it already has one; then the tuple of the eleven
+    indices gets the next free index of the polynomial table unless it already has one"""
+    g = "composer.constraints[*]"
+    sub = []
+    for k, f in enumerate(SEL_ORDER):
+        sub.append(("map.or_insert", "scalars", f"{g}.{f}", f"len(scalars)#{k}"))
+    tup = VStruct("CompressedPolynomial", {f: VOpaque("index_of", [VOpaque("scalars"), Sym(f"{g}.{f}")]) for f in SEL_ORDER})
+    sub.append(("map.or_insert", "polynomials", canon(tup), "len(polynomials)#0"))
+    it.ctx.event("for_each_in_order", "composer.constraints", tuple(sub))
+    return VOpaque("havoc:result")
+
+
+u = Unit("compress.from_composer.index_assignment", CP, "CompressedCircuit::from_composer",
+         [("hades_optimization", sym("hades_optimization")), ("composer", sym("composer"))], c_from_composer,
+         lambda res, args, ctx: {"effects": [e_ for e_ in ctx.log if e_ and e_[0] == "for_each_in_order" and e_[1] == "composer.constraints"]},
+         trace_only=True, tracked=("scalars", "polynomials"), consts={"BlsScalar::SIZE": 32})
+u.extra_contracts = FC
+UNITS.append(u)
